@@ -35,7 +35,10 @@ THEOREMS = ['C06_indices_first_fastest', 'C06_items_array',
             'C06_square_base_vectors_translate', 'C06_outward_sense',
             'C06_square_errors', 'C06_compose_transform_point',
             'C06_develop_lattice_located', 'C06_develop_lattice_complete',
-            'C06_dimension_checks_spec', 'C06_degenerate_range_refuted']
+            'C06_dimension_checks_spec', 'C06_degenerate_range_refuted',
+            'C06_square_sides_irrelevant', 'C06_develop_lattice_square',
+            'C06_extract_surfaces', 'C06_parse_ranges_spelled',
+            'C06_parse_lattice_option']
 TRUSTED = [
     'hand-written model coq/C06/Model.v (modelled, tied by execution only)',
     'cells, surfaces other than planes and the effect of a transformation on a '
